@@ -102,7 +102,7 @@ func runConc(scenario string, jitterSeed uint64, quiet time.Duration) concObs {
 	if err != nil {
 		panic(err)
 	}
-	defer r.Close()
+	defer closeBounded(r)
 	o := concObs{Scenario: scenario, Jitter: jitterSeed}
 	bg := context.Background()
 	switch scenario {
@@ -417,4 +417,21 @@ func (c *ctx) concReplay(o *concObs) {
 		c.Case("conc", "("+recvdrv.CoqCfg(recvdrv.Config{})+", "+vlib.CoqList(hs)+")", replay{Kind: "conc", Conc: &last})
 	}
 	c.Eval()
+}
+
+func bgCtx() context.Context { return context.Background() }
+
+// closeBounded closes a receiver without ever blocking the harness: a receiver whose mutex
+// was left locked (a panic inside a critical section) is abandoned.
+func closeBounded(r *announce.Receiver) {
+	done := make(chan struct{})
+	go func() {
+		defer func() { _ = recover() }()
+		r.Close()
+		close(done)
+	}()
+	select {
+	case <-done:
+	case <-time.After(2 * time.Second):
+	}
 }
